@@ -68,6 +68,12 @@ type world struct {
 	failLate   bool // failing bodies write their outputs first
 	running    int  // bodies between start and end right now
 	maxRunning int
+	// the simulated network (ext.go): the projects that can be fetched, the number of
+	// repository operations of the current process, the one that fails, how many failed
+	exts      func() *projSpec
+	netOps    int
+	netFailAt int
+	netFaults int
 }
 
 type bodySpec struct {
@@ -385,6 +391,8 @@ type buildOpts struct {
 func (w *world) process(name string, pc procCfg, bo buildOpts, stepHook func(step int, kind, detail string)) *procResult {
 	res := &procResult{}
 	w.runNo = 0
+	os.Setenv("HOME", w.home) // (another world of this worker may have pointed it elsewhere)
+	curWorld, w.netOps, w.netFaults = w, 0, 0
 	s := w.newSim(name, pc, stepHook)
 	w.sim = s
 	w.chunkT = w.ctx.Tapes.Get(name + ".chunks")
